@@ -17,7 +17,7 @@ type docSpace struct {
 }
 
 func stdLeaves() []*ref.Node {
-	return []*ref.Node{ref.Str("s"), ref.Str(""), ref.Str("\x7fé߿ࠀ\uffff𐀀\n\""), ref.Int(1), ref.Float(-2.5), ref.Bool(true), ref.Bool(false), ref.Null()}
+	return []*ref.Node{ref.Str("s"), ref.Str(""), ref.Str("\x7fé߿ࠀ\uffff𐀀\n\""), ref.Int(-12), ref.Float(-2.5), ref.Bool(true), ref.Bool(false), ref.Null()}
 }
 
 func smallLeaves() []*ref.Node {
